@@ -188,7 +188,9 @@ where
     | none => "bv.select.nosupport"
     | some s =>
       match s.samples.get (2 * (r / 4096) + 1) with
-      | .ok p => if p.toNat % 2 = 0 then "bv.select.long" else if r % 64 = 0 then "bv.select.short.block" else "bv.select.short.scan"
+      | .ok p =>
+        let later := if p.toNat / 2 > 0 then ".later" else ""
+        if p.toNat % 2 = 0 then "bv.select.long" ++ later else if r % 64 = 0 then "bv.select.short.block" else "bv.select.short.scan" ++ later
       | .fault _ => "bv.select.badsample"
 
 end Sds.Driver
